@@ -29,13 +29,16 @@ from vmon.oracle import c01_sfntdir as sd
 PROPERTY = "C01"
 LEVEL = "exploration"
 RULE = ("one configuration = (corpus font or TTC member or derived font [re-flavoured / injected unknown tag / "
-        "garbage-replaced table / transplant / generated GPOS pair lookups / generated composite glyphs], lazy mode, touch pattern all|subset|none, recalcBBoxes); it is "
+        "garbage-replaced table / transplant / generated GPOS pair lookups / generated composite glyphs / foreign-writer "
+        "encoding of cmap, glyf+loca, hmtx, name or post], lazy mode, touch pattern all|subset|none, recalcBBoxes); it is "
         "non-trivial when the getTableData monitor saw at least one table take the path the pattern is about "
         "(compiled for all/subset, pass-through for none/subset) and every oracle stage (a)-(c) reached a verdict; "
         "distinct by that tuple")
 ASSUMPTIONS = [
     "content equality (a) is equality of the library's own XML dump applied symmetrically to original and saved table bytes (faithfulness of the dump is C03's property), cross-checked by spec-written readers for name / hmtx / vmtx and by a HarfBuzz before/after differential for outlines, advances and cmap",
     "derived fields the library documents as recomputed on compile are masked in (a) only: head.checkSumAdjustment, OS/2 usFirstCharIndex/usLastCharIndex, post extraNames that are standard Macintosh names; with recalcBBoxes=True also head/glyph bboxes, head.flags bit 1 (set by maxp.recalc from 'every xMin equals its lsb'), hhea/vhea extents, maxp maxima, CFF FontBBox; their correctness is C04's job",
+    "fields that only describe the chosen encoding are masked in (a) as well: head.indexToLocFormat, hhea.numberOfHMetrics / vhea.numberOfVMetrics, and the length= / nGroups= attributes of cmap subtables; the meaning they encode is judged by the spec-level readers (cmap mapping per subtable, expanded hmtx/vmtx metrics, post glyph names, name records, composite components) and by HarfBuzz / FreeType",
+    "foreign-writer inputs (vmon/gen/c01_foreign.py, assembled by the spec-level sfnt writer in oracle/c01_sfntdir.py, no fontTools involved): cmap format 4 with glyphIdArray segments carrying a non-zero idDelta, 0 entries and shared glyphIdArray ranges, format 12 in odd group splits, one subtable referenced by two encoding records; glyf slots with padding and the other loca format; hmtx untrimmed / maximally trimmed / with trailing bytes; name records over shared and overlapping string storage; post format 2 with custom names stored out of glyph order plus an unused name. A foreign cmap/post input is used only if the spec-level reader, HarfBuzz and FreeType agree on its meaning (else the case is inconclusive)",
     "HarfBuzz translates a top-level glyf outline by (lsb - header xMin): with recalcBBoxes=True a glyph whose header xMin changed (struct-level read) may differ by exactly that uniform horizontal translation and nothing else",
     "generated inputs (spec-written, vmon/gen/c01_gpos.py and c01_glyf.py): a GPOS with PairPos format 1/2 record arrays above the lazy-array threshold under different ValueFormats, and composite glyphs carrying every preservable component flag and transform form written into the binary glyf by struct-level surgery (non-variable glyf hosts; composites reference only glyphs that stay simple)",
     "raw table bytes of sfnt/TTC files come from a spec-written directory parser (vmon/oracle/c01_sfntdir.py); WOFF/WOFF2 containers are read through the library's reader (the container is C04's property)",
